@@ -314,6 +314,7 @@ def install_repeat_pruning(ctx):
     from symx.core import PathAbort
 
     seen = set()
+    frames = {"last": None, "n": 0}
 
     def hook(kind, seq):
         f = sys._getframe()
@@ -321,6 +322,9 @@ def install_repeat_pruning(ctx):
             f = f.f_back
         if f is None:
             return
+        if f is not frames["last"]:  # a new invocation of rewire(): its states are compared among themselves only
+            frames["last"] = f
+            frames["n"] += 1
         loc = f.f_locals
         G = loc.get("G")
         if G is None or "convergence_count" not in loc:
@@ -337,7 +341,7 @@ def install_repeat_pruning(ctx):
         if me is not None:
             skip = {"_proposal_edges", "_acceptance_ratio", "_proposal_count", "_proposals_accepted", "_network", "_ejks", "_logger", "swap_condition"}
             fp = tuple((k, repr(v)[:2000]) for k, v in sorted(vars(me).items()) if k not in skip)
-        key = (site, loc.get("convergence_count"), loc.get("search_count") if site == "e1" else None,
+        key = (frames["n"], site, loc.get("convergence_count"), loc.get("search_count") if site == "e1" else None,
                tuple(int(x) for x in loc["e0"]) if site == "e1" and "e0" in loc else None, repr(snap), tuple(sorted(map(repr, seq))), fp)
         if key in seen:
             raise PathAbort("repeat-state")
